@@ -61,6 +61,17 @@ func init() {
 		}
 		return one(st, &IfaceV{})
 	})
+	// sync/atomic.Pointer[T]: the pointer is kept beside the state, keyed by the address of the atomic value
+	reg("(*sync/atomic.Pointer[T]).Store", func(e *Engine, st *State, args []Value, fn *ssa.Function) []Outcome {
+		st.setAux(addrKey("atomicptr", args[0].(*PtrV)), args[1])
+		return one(st, nil)
+	})
+	reg("(*sync/atomic.Pointer[T]).Load", func(e *Engine, st *State, args []Value, fn *ssa.Function) []Outcome {
+		if v, ok := st.aux[addrKey("atomicptr", args[0].(*PtrV))]; ok {
+			return one(st, v)
+		}
+		return one(st, &PtrV{})
+	})
 	reg("time.AfterFunc", func(e *Engine, st *State, args []Value, fn *ssa.Function) []Outcome {
 		e.rep.noteStub("time.AfterFunc (timers are not modelled: the function is never run by the clock)")
 		return one(st, &PtrV{})
